@@ -850,6 +850,104 @@ Proof.
   split; [exact Hi'|]. split; [exact Hl'|]. auto.
 Qed.
 
+(* --- custom properties -------------------------------------------------------------------------------------------------- *)
+(* the raw tokens of a custom property value (whitespace and comments included): no end of input, no ';' '}' ')' ']'
+   at bracket level 0 *)
+Definition rtok_ok (lv : Z) (t : ttype) : bool :=
+  negb (((is_t t TSemicolon || is_t t TRightBrace) && (lv =? 0)) || is_t t TError) && negb (closes t && (lv =? 0)).
+Fixpoint raw_ok (lv : Z) (l : list tok) : Prop :=
+  match l with [] => True | x :: r => rtok_ok lv (fst x) = true /\ raw_ok (tok_lv lv (fst x)) r end.
+Fixpoint raw_lv (lv : Z) (l : list tok) : Z :=
+  match l with [] => lv | x :: r => raw_lv (tok_lv lv (fst x)) r end.
+
+Lemma custom_loop_S f p val : custom_loop (S f) p val =
+  (r <-- lex_next p ;;
+   let t := fst (fst r) in let d := snd (fst r) in let p := snd r in
+   if ends_unit p t then POk (GCustomProperty, push_buf (set_prevend p (is_t t TRightBrace)) TCustomPropertyValue val)
+   else if closes t && (plevel p =? 0) then POk (GError, set_err (push_buf p t d) true)
+   else custom_loop f (adjust_level p t) (val ++ d)).
+Proof. reflexivity. Qed.
+
+Definition same_but_lex (p p' : parser) : Prop :=
+  keepws p' = keepws p /\ pst p' = pst p /\ ptt p' = ptt p /\ pdata p' = pdata p /\ perr p' = perr p /\
+  prevend p' = prevend p /\ isstyle p' = isstyle p /\ pbuf p' = pbuf p.
+
+Lemma custom_raw : forall raw f p val ts, css_inv (pl p) -> lexes (pl p) (raw ++ ts) -> raw_ok (plevel p) raw ->
+  exists p', custom_loop (length raw + f) p val = custom_loop f p' (val ++ concat (map snd raw)) /\
+    css_inv (pl p') /\ lexes (pl p') ts /\ plevel p' = raw_lv (plevel p) raw /\ same_but_lex p p'.
+Proof.
+  induction raw as [|[t b] raw IH]; intros f p val ts Hi Hl Hok.
+  - exists p. cbn [length Nat.add map concat app raw_lv] in *. rewrite app_nil_r.
+    split; [reflexivity|]. split; [exact Hi|]. split; [exact Hl|]. split; [reflexivity|]. unfold same_but_lex. repeat split.
+  - cbn [app] in Hl. cbn [raw_ok fst] in Hok. destruct Hok as (Hv & Hok).
+    destruct (lexes_cons _ _ _ _ Hl) as (z' & Hn & Hl' & _). pose proof (css_inv_next _ _ _ _ Hi Hn) as Hi'.
+    unfold rtok_ok in Hv. apply andb_true_iff in Hv. destruct Hv as [Hv1 Hv2].
+    apply negb_true_iff in Hv1. apply negb_true_iff in Hv2.
+    set (p1 := adjust_level (set_pl p z') t).
+    assert (Hf : pl p1 = z' /\ plevel p1 = tok_lv (plevel p) t /\ same_but_lex p p1).
+    { subst p1. unfold adjust_level, tok_lv, same_but_lex. destruct (opens t), (closes t); cbn; repeat split. }
+    destruct Hf as (G1 & G2 & G3).
+    destruct (IH f p1 (val ++ b) ts) as (p' & Hrun & Hi2 & Hl2 & Hlv2 & Hs2).
+    + rewrite G1. exact Hi'.
+    + rewrite G1. exact Hl'.
+    + rewrite G2. exact Hok.
+    + exists p'. cbn [length Nat.add]. rewrite custom_loop_S. unfold lex_next. rewrite Hn. cbn [pbind fst snd].
+      unfold ends_unit. cbn [set_pl plevel]. rewrite Hv1, Hv2. fold p1. rewrite Hrun.
+      split; [cbn [map concat snd]; rewrite <- app_assoc; reflexivity|]. split; [exact Hi2|]. split; [exact Hl2|].
+      split; [rewrite Hlv2, G2; reflexivity|].
+      unfold same_but_lex in *. destruct G3 as (A1 & A2 & A3 & A4 & A5 & A6 & A7 & A8). destruct Hs2 as (B1 & B2 & B3 & B4 & B5 & B6 & B7 & B8).
+      repeat split; congruence.
+Qed.
+
+(* a custom property  --name ':' raw-tokens ';'  inside a ruleset: the value is the exact source text *)
+Lemma step_custom p st0 o1 name o2 c (raw : list tok) s ts :
+  wf_state p (SQualifiedRuleDeclarationList :: st0)
+           (optws o1 ++ (TCustomPropertyName, name) :: optws o2 ++ (TColon, c) :: raw ++ (TSemicolon, s) :: ts) ->
+  raw_ok 0 raw -> raw_lv 0 raw = 0 ->
+  exists p', parse_next p = POk (GCustomProperty, p') /\ ptt p' = TCustomPropertyName /\ pdata p' = name /\
+    pbuf p' = [(TCustomPropertyValue, concat (map snd raw))] /\ perr p' = false /\
+    wf_state p' (SQualifiedRuleDeclarationList :: st0) ts.
+Proof.
+  intros (Hi & Hl & Hst & Hlv & Hpe & Hkw & Hsty) Hok Hlv0.
+  assert (HN : exists f', next_fuel p = S (length raw + S f')).
+  { pose proof (lexes_len _ _ Hi Hl) as Hlen. eapply fuel_split; [exact Hlen|].
+    rewrite app_length. cbn [length]. rewrite app_length. cbn [length]. rewrite app_length. cbn [length].
+    clear. unfold tok. lia. }
+  destruct HN as (f' & HN). assert (HF : (1 <= next_fuel p)%nat) by (apply next_fuel_pos; exact Hi).
+  unfold parse_next. cbv zeta. change (prevend (set_err p false)) with (prevend p). rewrite Hpe.
+  destruct (pop_token_ows (next_fuel p) true (set_err p false) o1 TCustomPropertyName name _ Hi Hkw Hl eq_refl HF)
+    as (z1 & Hpop & Hl1 & Hi1).
+  rewrite Hpop. cbn [pbind fst snd]. cbn [set_tok relex set_err pst]. rewrite Hst.
+  unfold parse_qualified_rule_declaration_list. rewrite skip_semicolons_none by (cbn; discriminate). cbn [pbind]. cbv zeta.
+  cbn [set_tok ptt]. evis. cbn [orb].
+  unfold parse_declaration_list. cbn [set_tok ptt]. evis. cbn [pbind].
+  rewrite skip_semicolons_none by (cbn; discriminate). cbn [pbind set_tok ptt]. evis. cbn [pbind orb andb]. cbv zeta. cbn [set_tok ptt]. evis.
+  cbn [orb andb]. rewrite ?andb_false_r. cbn [orb].
+  unfold parse_custom_property.
+  match goal with |- context [pop_token _ false ?q] => set (q0 := q) end.
+  destruct (pop_token_ows (next_fuel p) false q0 o2 TColon c _ Hi1 Hkw Hl1 eq_refl HF) as (z2 & Hpop2 & Hl2 & Hi2).
+  rewrite Hpop2. cbn [pbind fst snd]. evis. cbn [negb].
+  match goal with |- context [custom_loop _ ?q []] => set (q1 := q) end.
+  assert (Hq : custom_loop (next_fuel p) q1 [] = custom_loop (length raw + S (S f')) q1 []).
+  { rewrite HN. f_equal. clear. lia. }
+  rewrite Hq. clear Hq.
+  destruct (custom_raw raw (S (S f')) q1 [] ((TSemicolon, s) :: ts)) as (q2 & Hrun & Hi3 & Hl3 & Hlv3 & Hs3).
+  { exact Hi2. } { exact Hl2. } { change (plevel q1) with (plevel p). rewrite Hlv. exact Hok. }
+  rewrite Hrun. cbn [app].
+  destruct (lexes_cons _ _ _ _ Hl3) as (z4 & Hn4 & Hl4 & _). pose proof (css_inv_next _ _ _ _ Hi3 Hn4) as Hi4.
+  rewrite custom_loop_S. unfold lex_next. rewrite Hn4. cbn [pbind fst snd]. unfold ends_unit. cbn [set_pl plevel].
+  rewrite Hlv3. change (plevel q1) with (plevel p). rewrite Hlv, Hlv0. evis. cbn [Z.eqb orb andb].
+  destruct Hs3 as (S1 & S2 & S3 & S4 & S5 & S6 & S7 & S8).
+  eexists. split; [reflexivity|].
+  cbn [push_buf set_buf set_prevend set_pl ptt pdata pbuf perr].
+  split; [rewrite S3; reflexivity|]. split; [rewrite S4; reflexivity|]. split; [rewrite S8; reflexivity|].
+  split; [rewrite S5; reflexivity|].
+  unfold wf_state. cbn [push_buf set_buf set_prevend set_pl pl pst plevel prevend keepws isstyle].
+  split; [exact Hi4|]. split; [exact Hl4|]. split; [rewrite S2; exact Hst|].
+  split; [rewrite Hlv3; change (plevel q1) with (plevel p); rewrite Hlv; exact Hlv0|]. split; [reflexivity|].
+  split; [rewrite S1; exact Hkw|rewrite S7; exact Hsty].
+Qed.
+
 (* --- the grammar and the units it denotes ------------------------------------------------------------------------ *)
 (* w1 property w2 ':' value-tokens (each with the whitespace before it) w4 ';' *)
 Record decl_t := mkDecl { d_w1 : ws_t; d_prop : list Z; d_w2 : ws_t; d_vals : list wtok; d_w4 : ws_t }.
@@ -858,7 +956,8 @@ Record decl_t := mkDecl { d_w1 : ws_t; d_prop : list Z; d_w2 : ws_t; d_vals : li
    (nested) rulesets between them *)
 Inductive ev := EDecl (d : decl_t) | EOpen (sel : list wtok) (w2 : ws_t) | EClose (w3 : ws_t)
   | EComment (w : ws_t) (b : list Z)                 (* a comment at the top level *)
-  | EToken (w : ws_t) (t : ttype) (b : list Z).      (* CDO or CDC at the top level *)
+  | EToken (w : ws_t) (t : ttype) (b : list Z)       (* CDO or CDC at the top level *)
+  | ECustom (w1 : ws_t) (name : list Z) (w2 : ws_t) (raw : list tok).   (* --name ':' raw tokens ';' inside a ruleset *)
 
 Definition decl_toks (d : decl_t) : list tok :=
   optws (d_w1 d) ++ (TIdent, d_prop d) :: optws (d_w2 d) ++ (TColon, [58]) :: src_toks (d_vals d) ++
@@ -870,6 +969,7 @@ Definition ev_toks (e : ev) : list tok :=
   | EClose w3 => optws w3 ++ [(TRightBrace, [125])]
   | EComment w b => optws w ++ [(TComment, b)]
   | EToken w t b => optws w ++ [(t, b)]
+  | ECustom w1 name w2 raw => optws w1 ++ (TCustomPropertyName, name) :: optws w2 ++ (TColon, [58]) :: raw ++ [(TSemicolon, [59])]
   end.
 
 Definition decl_ok (d : decl_t) : Prop := d_vals d <> [] /\ toks_ok 0 (d_vals d) /\ lv_after 0 (d_vals d) = 0.
@@ -885,13 +985,14 @@ Fixpoint evs_ok (depth : nat) (l : list ev) : Prop :=
   | EClose _ :: r => (0 < depth)%nat /\ evs_ok (pred depth) r
   | EComment _ _ :: r => depth = O /\ evs_ok depth r
   | EToken _ t _ :: r => depth = O /\ is_cd t = true /\ evs_ok depth r
+  | ECustom _ _ _ raw :: r => (0 < depth)%nat /\ raw_ok 0 raw /\ raw_lv 0 raw = 0 /\ evs_ok depth r
   end.
 
 (* what the caller sees of one call: grammar type, token type, data, and Values() for the units that set them *)
 Definition unit_t := (gtype * ttype * list Z * list tok)%type.
 Definition view (r : gtype * parser) : unit_t :=
   match fst r with
-  | GBeginRuleset | GDeclaration => (fst r, ptt (snd r), pdata (snd r), pbuf (snd r))
+  | GBeginRuleset | GDeclaration | GCustomProperty => (fst r, ptt (snd r), pdata (snd r), pbuf (snd r))
   | GError => (GError, ptt (snd r), [], [])
   | g => (g, ptt (snd r), pdata (snd r), [])
   end.
@@ -903,6 +1004,7 @@ Definition ev_unit (e : ev) : unit_t :=
   | EClose _ => (GEndRuleset, TRightBrace, [125], [])
   | EComment _ b => (GComment, TComment, b, [])
   | EToken _ t b => (GToken, t, b, [])
+  | ECustom _ name _ raw => (GCustomProperty, TCustomPropertyName, name, [(TCustomPropertyValue, concat (map snd raw))])
   end.
 
 Definition last_state (p : parser) (tr : list (gtype * parser)) : parser :=
@@ -936,7 +1038,7 @@ Proof.
       - cbn [map]. rewrite Hview, Hv, Hu. reflexivity.
       - constructor; [exact He|exact Hne].
       - rewrite last_state_cons. exact Hlast. }
-    destruct e as [[w1 prop w2 vl w4]|sel w2|w3|wc cb|wt tt tb]; cbn [evs_ok] in Hok; cbn [map concat ev_toks] in Hw.
+    destruct e as [[w1 prop w2 vl w4]|sel w2|w3|wc cb|wt tt tb|cw1 cname cw2 craw]; cbn [evs_ok] in Hok; cbn [map concat ev_toks] in Hw.
     + destruct Hok as (Hd & (Hv & Hp & Hq) & Hok). cbn [d_vals] in *.
       destruct depth as [|depth]; [lia|]. unfold stack in Hw. cbn [repeat app] in Hw.
       unfold decl_toks in Hw. cbn [d_w1 d_prop d_w2 d_vals d_w4] in Hw. repeat (rewrite <- app_assoc in Hw; cbn [app] in Hw).
@@ -961,6 +1063,10 @@ Proof.
       repeat (rewrite <- app_assoc in Hw; cbn [app] in Hw).
       destruct (step_cd p wt tt tb _ Hw Hcd) as (p1 & Hn & Ht & Hdd & He & Hw1).
       eapply (Hcons _ p1 _ O Hn eq_refl He Hw1 Hok). unfold view. cbn [fst snd ev_unit]. rewrite Ht, Hdd. reflexivity.
+    + destruct Hok as (Hd & Hr1 & Hr2 & Hok). destruct depth as [|depth]; [lia|]. unfold stack in Hw. cbn [repeat app] in Hw.
+      repeat (rewrite <- app_assoc in Hw; cbn [app] in Hw).
+      destruct (step_custom p _ cw1 cname cw2 [58] craw [59] _ Hw Hr1 Hr2) as (p1 & Hn & Ht & Hdd & Hb & He & Hw1).
+      eapply (Hcons _ p1 _ (S depth) Hn eq_refl He Hw1 Hok). unfold view. cbn [fst snd ev_unit]. rewrite Ht, Hdd, Hb. reflexivity.
 Qed.
 
 Lemma parse_run_snoc : forall a p tr1 r, parse_run a p = POk tr1 -> parse_next (last_state p tr1) = POk r ->
@@ -1071,6 +1177,29 @@ Example wellformed_example_nested :
      (GBeginRuleset, TWhitespace, [], [(TIdent, [98]); (TComma, [44]); (TIdent, [99]); sp; (TIdent, [100])]);
      (GDeclaration, TIdent, [101], [(TIdent, [102])]); (GEndRuleset, TRightBrace, [125], []);
      (GDeclaration, TIdent, [103], [(TIdent, [104])]); (GEndRuleset, TRightBrace, [125], [])].
+Proof.
+  cbv zeta. split; [vm_compute; reflexivity|]. split; [|vm_compute; reflexivity].
+  repeat (first [discriminate | reflexivity | lia | split]).
+Qed.
+
+(* "<!-- /*c*/a{--x: 1 /*k*/ (;) ;&.b{}}-->" : a CDO, a top-level comment, a custom property whose value is the exact source
+   text " 1 /*k*/ (;) " (the ';' inside the parentheses does not end it), a nested ruleset that starts with '&', a CDC *)
+Example wellformed_example_misc :
+  let raw := [(TWhitespace, [32]); (TNumber, [49]); (TWhitespace, [32]); (TComment, [47; 42; 107; 42; 47]); (TWhitespace, [32]);
+              (TLeftParenthesis, [40]); (TSemicolon, [59]); (TRightParenthesis, [41]); (TWhitespace, [32])] in
+  let evs := [EToken None TCDO [60; 33; 45; 45]; EComment (Some [32]) [47; 42; 99; 42; 47];
+              EOpen [(None, (TIdent, [97]))] None; ECustom None [45; 45; 120] None raw;
+              EOpen [(None, (TDelim, [38])); (None, (TDelim, [46])); (None, (TIdent, [98]))] None; EClose None; EClose None;
+              EToken None TCDC [45; 45; 62]] in
+  css_lex [60; 33; 45; 45; 32; 47; 42; 99; 42; 47; 97; 123; 45; 45; 120; 58; 32; 49; 32; 47; 42; 107; 42; 47; 32; 40; 59; 41; 32; 59;
+           38; 46; 98; 123; 125; 125; 45; 45; 62] = LexDone (concat (map ev_toks evs) ++ optws None) /\
+  evs_ok 0 evs /\
+  map ev_unit evs =
+    [(GToken, TCDO, [60; 33; 45; 45], []); (GComment, TComment, [47; 42; 99; 42; 47], []);
+     (GBeginRuleset, TWhitespace, [], [(TIdent, [97])]);
+     (GCustomProperty, TCustomPropertyName, [45; 45; 120], [(TCustomPropertyValue, [32; 49; 32; 47; 42; 107; 42; 47; 32; 40; 59; 41; 32])]);
+     (GBeginRuleset, TWhitespace, [], [(TDelim, [38]); (TDelim, [46]); (TIdent, [98])]);
+     (GEndRuleset, TRightBrace, [125], []); (GEndRuleset, TRightBrace, [125], []); (GToken, TCDC, [45; 45; 62], [])].
 Proof.
   cbv zeta. split; [vm_compute; reflexivity|]. split; [|vm_compute; reflexivity].
   repeat (first [discriminate | reflexivity | lia | split]).
